@@ -96,6 +96,12 @@ func genC06(t *rapid.T) c06Case {
 	c.Base = []string{"var", "dot", "call"}[rapid.IntRange(0, 2).Draw(t, "base")]
 	root := zooRoot(c.Variant)
 	c.Steps = genZPath(t, root, 4, 5)
+	for i := range c.Steps {
+		// (.a.absent, with the context as the base, is left open: a field node, not a chain)
+		if c.Base == "dot" && c.Steps[i].Name == "absentKey" && c.Steps[i].Spell == "dot" {
+			c.Steps[i].Spell = "bracket"
+		}
+	}
 	c.Expr = zPathString(zBaseExpr(c.Base), c.Steps)
 	c.Twin = zPathString(zBaseExpr(c.Base), zTwin(c.Steps))
 	return c
